@@ -10,6 +10,8 @@ import (
 	"fmt"
 	"io"
 	"net"
+	"strconv"
+	"strings"
 	"sync"
 	"sync/atomic"
 	"time"
@@ -20,9 +22,29 @@ import (
 )
 
 type behaviour struct {
-	kind string // up | err | empty | panic | hang
-	msg  []byte
-	gate chan struct{} // when non-nil Resolve blocks on it first
+	kind  string // up | err | empty | panic | hang
+	msg   []byte
+	gate  chan struct{} // when non-nil Resolve blocks on it first
+	grp   *group        // when non-nil: rendezvous with the other queries of the group
+	delay time.Duration
+}
+
+// group: k handlers rendezvous inside the upstream, then are released together
+type group struct {
+	mu      sync.Mutex
+	want    int
+	n       int
+	release chan struct{}
+}
+
+func newGroup(k int) *group { return &group{want: k, release: make(chan struct{})} }
+func (g *group) arrive() {
+	g.mu.Lock()
+	g.n++
+	if g.n == g.want {
+		close(g.release)
+	}
+	g.mu.Unlock()
 }
 
 type upCall struct {
@@ -71,6 +93,18 @@ func (u *fakeUp) Resolve(ctx context.Context, q query.Query, buf []byte) (int, r
 		case <-b.gate:
 		case <-ctx.Done():
 			return 0, ri, ctx.Err()
+		}
+	}
+	if b.grp != nil {
+		b.grp.arrive()
+		select {
+		case <-b.grp.release:
+		case <-time.After(300 * time.Millisecond):
+		case <-ctx.Done():
+			return 0, ri, ctx.Err()
+		}
+		if b.delay > 0 {
+			time.Sleep(b.delay)
 		}
 	}
 	switch b.kind {
@@ -248,6 +282,8 @@ type replyCase struct {
 
 func (c replyCase) upMsg() []byte { return append(append([]byte{}, c.upPre...), filler(c.upFill, c.upSeed)...) }
 
+var noReplyCount int32
+
 func runSeq(w *world, c replyCase, timeout time.Duration) {
 	b := &behaviour{kind: c.kind, msg: c.upMsg()}
 	w.up.mu.Lock()
@@ -273,6 +309,9 @@ func runSeq(w *world, c replyCase, timeout time.Duration) {
 		nrep = countFrames(s)
 		rep = s // whole stream, prefix included
 	}
+	if nrep == 0 && !c.expectSilence && c.kind != "panic" {
+		atomic.AddInt32(&noReplyCount, 1)
+	}
 	calls := w.up.takeCalls()
 	saw := "none"
 	if len(calls) == 1 {
@@ -293,6 +332,9 @@ func replyEngine(args []string) error {
 	port := c.fs.Lookup("seed") // placeholder to keep flag set used
 	_ = port
 	r := newRng(c.seed)
+	if c.extra != "" {
+		c.mode = "replay"
+	}
 	base := 5300
 	timeout := 400 * time.Millisecond
 	switch c.mode {
@@ -300,6 +342,21 @@ func replyEngine(args []string) error {
 		return replyC05(r, c.n, base, timeout)
 	case "seq":
 		return replySeq(r, c.n, base, timeout)
+	case "seqecs":
+		ecsHeavy = true
+		return replySeq(r, c.n, base, timeout)
+	case "conc":
+		return replyConc(r, c.n, base)
+	case "replay":
+		t := strings.Fields(c.extra)
+		if len(t) < 5 {
+			return errors.New("replay: need <proto> <qhex> <kind> <upspec> <adv>")
+		}
+		rc := replyCase{id: "replay", proto: t[0], q: unhx(t[1]), kind: t[2]}
+		rc.upPre, rc.upFill, rc.upSeed = parseFill(t[3])
+		rc.adv, _ = strconv.Atoi(t[4])
+		rc.expectSilence = len(rc.q) <= 14
+		return parallelWorlds(1, base, 16, timeout, []replyCase{rc})
 	}
 	return fmt.Errorf("reply: unknown mode %q", c.mode)
 }
@@ -317,6 +374,10 @@ func parallelWorlds(nw int, base int, k uint, timeout time.Duration, cases []rep
 			defer wg.Done()
 			defer w.stop()
 			for j := i; j < len(cases); j += nw {
+				if atomic.LoadInt32(&noReplyCount) >= 8 {
+					note("reply: 8 unanswered queries: stopping early")
+					break
+				}
 				runSeq(w, cases[j], timeout)
 			}
 		}(i, w)
@@ -395,6 +456,295 @@ func replyC05(r *rng, n int, base int, timeout time.Duration) error {
 	return parallelWorlds(8, base, 16, timeout, cases)
 }
 
+// genResponse: an upstream message for query bytes q (echoing id and, when the
+// generator knows it, the question), with random records, length skewed around
+// the truncation boundaries.
+func genResponse(r *rng, qc qcase) (pre []byte, fill int) {
+	q := qc.q
+	var b []byte
+	if len(q) >= 12 && qc.kind == "wf" {
+		// find end of first question with a plain label walk (generator-side knowledge only)
+		off := 12
+		for off < len(q) && q[off] != 0 && q[off]&0xc0 == 0 {
+			off += 1 + int(q[off])
+		}
+		off += 5
+		if off <= len(q) {
+			ms := msgSpec{id: int(q[0])<<8 | int(q[1]), flags: []int{0x8180, 0x8183, 0x8580, 0x8380}[r.intn(4)]}
+			b = ms.encode()
+			b[4], b[5] = 0, 1
+			b = append(b, q[12:off]...)
+			nrr := r.intn(6)
+			cnt := 0
+			for i := 0; i < nrr; i++ {
+				b = append(b, encodeRR(randRR(r, -1))...)
+				cnt++
+			}
+			b[6], b[7] = byte(cnt>>8), byte(cnt)
+		}
+	}
+	if b == nil {
+		b = r.bytes(r.rng(1, 60))
+		if len(q) >= 2 && len(b) >= 2 && r.coin(70) {
+			b[0], b[1] = q[0], q[1]
+		}
+	}
+	target := len(b)
+	switch r.intn(10) {
+	case 0:
+		target = r.rng(500, 520)
+	case 1:
+		if qc.adv > 0 {
+			target = qc.adv + r.rng(-3, 3)
+		}
+	case 2:
+		target = r.rng(4090, 4100)
+	case 3:
+		target = r.rng(1, 14)
+	case 4:
+		target = r.rng(600, 3000)
+	}
+	if target < 1 {
+		target = 1
+	}
+	if target > 65535 {
+		target = 65535
+	}
+	if target <= len(b) {
+		return b[:target], 0
+	}
+	return b, target - len(b)
+}
+
+// ---- mode seq: random queries (well-formed, damaged, junk) x upstream outcomes x proto,
+// one at a time per proxy instance (8 instances in parallel) ----
 func replySeq(r *rng, n int, base int, timeout time.Duration) error {
-	return errors.New("not yet")
+	var cases []replyCase
+	for i := 0; i < n; i++ {
+		qc := genQueryCase(r, "")
+		if qc.kind == "big" && r.coin(70) {
+			qc = genQueryCase(r, "")
+		}
+		kind := "up"
+		switch x := r.intn(100); {
+		case x < 60:
+		case x < 75:
+			kind = "err"
+		case x < 85:
+			kind = "empty"
+		case x < 93:
+			kind = "errn"
+		default:
+			kind = "hang"
+		}
+		proto := "udp"
+		if r.coin(40) {
+			proto = "tcp"
+		}
+		c := replyCase{id: fmt.Sprintf("%s%d", qc.kind, i), proto: proto, q: qc.q, kind: kind, adv: qc.adv}
+		if kind == "up" || kind == "errn" {
+			c.upPre, c.upFill = genResponse(r, qc)
+			c.upSeed = r.intn(256)
+		}
+		if len(qc.q) <= 14 {
+			c.expectSilence = true
+		}
+		if proto == "udp" && qc.adv > 65507 {
+			// outside C01's quantifier (advertised size <= 65507): keep the reply small
+			c.upFill = 0
+		}
+		if len(qc.q) > 65535 {
+			continue
+		}
+		if c.proto == "udp" && len(qc.q) > 65507 {
+			c.proto = "tcp" // not sendable as one datagram on loopback
+		}
+		cases = append(cases, c)
+	}
+	return parallelWorlds(8, base, 16, timeout, cases)
+}
+
+// ---- mode conc: concurrent UDP clients and pipelined TCP clients against one proxy;
+// the upstream makes the handlers of a batch rendezvous and releases them together so
+// their replies are written concurrently.
+func replyConc(r *rng, n int, base int) error {
+	w, err := newWorld(base, 64, 1500*time.Millisecond)
+	if err != nil {
+		return err
+	}
+	defer w.stop()
+	type item struct {
+		c    replyCase
+		name string
+	}
+	emitCase := func(c replyCase, nrep int, rep []byte, closed bool, saw string) {
+		head := rep
+		if len(head) > 16 {
+			head = head[:16]
+		}
+		emit("reply", c.id, c.proto, hx(c.q), c.kind, hxfill(c.upPre, c.upFill, c.upSeed), itoa(c.adv), "=>",
+			itoa(nrep), hxo(rep), b2s(closed), saw, itoa(len(rep)), hx(head))
+	}
+	serial := 0
+	mk := func(proto string, g *group, usedIDs map[int]bool) item {
+		serial++
+		uniq := fmt.Sprintf("c%d", serial)
+		var q []byte
+		var adv int
+		for {
+			q, adv = genQuery(r, uniq)
+			id := int(q[0])<<8 | int(q[1])
+			if !usedIDs[id] {
+				usedIDs[id] = true
+				break
+			}
+		}
+		if adv > 65507 {
+			adv = -3 // outside C01's quantifier: still compared with the model, not judged by the C01 spec
+		}
+		qc := qcase{q, adv, "wf"}
+		kind := "up"
+		switch x := r.intn(100); {
+		case x < 70:
+		case x < 85:
+			kind = "err"
+		default:
+			kind = "empty"
+		}
+		c := replyCase{id: fmt.Sprintf("%s%d", proto, serial), proto: proto, q: q, kind: kind, adv: adv}
+		if kind == "up" {
+			for {
+				c.upPre, c.upFill = genResponse(r, qc)
+				if len(c.upPre)+c.upFill >= 12 {
+					break // frames are matched to queries by ID: keep a full header
+				}
+			}
+			c.upSeed = r.intn(256)
+			if adv == -3 {
+				c.upFill = 0
+			}
+		}
+		// q.Name as the proxy will see it
+		name := ""
+		off := 12
+		for q[off] != 0 {
+			name += string(q[off+1:off+1+int(q[off])]) + "."
+			off += 1 + int(q[off])
+		}
+		b := &behaviour{kind: c.kind, msg: c.upMsg(), grp: g, delay: time.Duration(r.intn(1500)) * time.Microsecond}
+		w.up.mu.Lock()
+		w.up.script[name] = b
+		w.up.mu.Unlock()
+		return item{c, name}
+	}
+	sawOf := func(calls []upCall, name string) string {
+		cnt := 0
+		s := "none"
+		for _, c := range calls {
+			if c.name == name {
+				cnt++
+				s = hxo(c.payload)
+			}
+		}
+		if cnt > 1 {
+			return fmt.Sprintf("multi%d", cnt)
+		}
+		return s
+	}
+	done := 0
+	for done < n {
+		w.up.takeCalls()
+		var wg sync.WaitGroup
+		// one batch: 1..3 TCP connections pipelining 2..6 queries + 4..12 UDP clients, all sharing one group
+		ntcp := r.rng(1, 3)
+		nudp := r.rng(4, 12)
+		var tcpItems [][]item
+		total := nudp
+		ks := make([]int, ntcp)
+		for i := range ks {
+			ks[i] = r.rng(2, 6)
+			total += ks[i]
+		}
+		g := newGroup(total)
+		for i := 0; i < ntcp; i++ {
+			ids := map[int]bool{}
+			var its []item
+			for j := 0; j < ks[i]; j++ {
+				its = append(its, mk("tcp", g, ids))
+			}
+			tcpItems = append(tcpItems, its)
+		}
+		var udpItems []item
+		for i := 0; i < nudp; i++ {
+			udpItems = append(udpItems, mk("udp", g, map[int]bool{}))
+		}
+		type tcpRes struct {
+			stream []byte
+			closed bool
+		}
+		tres := make([]tcpRes, ntcp)
+		ures := make([][][]byte, nudp)
+		for i, its := range tcpItems {
+			wg.Add(1)
+			go func(i int, its []item) {
+				defer wg.Done()
+				var raw []byte
+				for _, it := range its {
+					raw = append(raw, frame(it.c.q)...)
+				}
+				st, cl := tcpExchange(w.addr, raw, len(its), 3*time.Second, 30*time.Millisecond)
+				tres[i] = tcpRes{st, cl}
+			}(i, its)
+		}
+		for i, it := range udpItems {
+			wg.Add(1)
+			go func(i int, it item) {
+				defer wg.Done()
+				ures[i] = udpExchange(w.addr, it.c.q, 3*time.Second, 30*time.Millisecond)
+			}(i, it)
+		}
+		wg.Wait()
+		calls := w.up.takeCalls()
+		for i, it := range udpItems {
+			var rep []byte
+			if len(ures[i]) > 0 {
+				rep = ures[i][0]
+			}
+			emitCase(it.c, len(ures[i]), rep, false, sawOf(calls, it.name))
+		}
+		for i, its := range tcpItems {
+			// split the stream into frames by the length prefixes as a client would
+			var frames [][]byte
+			st := tres[i].stream
+			for len(st) >= 2 {
+				l := int(binary.BigEndian.Uint16(st))
+				if len(st) < 2+l {
+					break
+				}
+				frames = append(frames, st[:2+l])
+				st = st[2+l:]
+			}
+			leftover := len(st)
+			for _, it := range its {
+				id0, id1 := it.c.q[0], it.c.q[1]
+				var rep []byte
+				cnt := 0
+				for _, f := range frames {
+					if len(f) >= 4 && f[2] == id0 && f[3] == id1 {
+						cnt++
+						rep = f
+					}
+				}
+				if leftover > 0 && cnt == 1 {
+					cnt = 100 + leftover // stream has trailing garbage: not a clean sequence of frames
+				}
+				emitCase(it.c, cnt, rep, false, sawOf(calls, it.name))
+			}
+		}
+		w.up.mu.Lock()
+		w.up.script = map[string]*behaviour{}
+		w.up.mu.Unlock()
+		done += total
+	}
+	return nil
 }
